@@ -323,13 +323,14 @@ def hist_check(prop, tier, seed, runs, workers, secs):
     unconfirmed = []  # seen once, gone when the same run is repeated in a fresh process
     known_hits = {}
     by_class = {}
-    # Up to six candidates per class, in run order: a violation that hangs on state shared between VM
+    # Up to eight candidates per class: a violation that hangs on state shared between VM
     # instances (a static, a thread-local) may need the runs that preceded it in its worker process
     # and not come back alone; another run of the same class often carries the whole story itself.
-    for v in sorted(violations, key=lambda v: int(v["run_index"])):
+    # (runs early in their worker process first: they have the least inherited state)
+    for v in sorted(violations, key=lambda v: (int(v["run_index"]) % max(1, cfg["chunk"]), int(v["run_index"]))):
         if "violation" in v:
             c = by_class.setdefault(v["violation"]["class"], [])
-            if len(c) < 6:
+            if len(c) < 8:
                 c.append(v)
     candidates = []
     for vclass, vs in sorted(by_class.items()):
